@@ -110,7 +110,8 @@ class AbstractItemEncoder(object):
 
                 if LOG:
                     LOG('encoded %svalue %s into %s' % (
-                        isConstructed and 'constructed ' or '', value, substrate
+                        isConstructed and 'constructed ' or '',
+                        debug.prettyValue(value), substrate
                     ))
 
                 if not substrate and isConstructed and options.get('ifNotEmpty', False):
@@ -839,7 +840,8 @@ class SingleItemEncoder(object):
                 'value:\n%s' % (not options.get('defMode', True) and 'in' or '',
                                 options.get('maxChunkSize', 0),
                                 asn1Spec is None and value.prettyPrintType() or
-                                asn1Spec.prettyPrintType(), value))
+                                asn1Spec.prettyPrintType(),
+                                debug.prettyValue(value)))
 
         if self.fixedDefLengthMode is not None:
             options.update(defMode=self.fixedDefLengthMode)
